@@ -96,9 +96,10 @@ func configs(thorough bool) []chipCfg {
 			return perso.Config{PACE: []refchip.PACEProto{{Mapping: 6, Cipher: 2, ParamID: 12}}, DGs: []int{2}, AA: &perso.AASpec{Curve: "P-256"}}
 		}},
 	}
+	// a chip whose LAST data group is an optional one (a silently dropped last file has no later exchange that could fail)
+	out = append(out, chipCfg{"BAC-only", func() perso.Config { return perso.Config{BAC: true, DGs: []int{2, 7, 11, 12}} }})
 	if thorough {
 		out = append(out,
-			chipCfg{"BAC-only", func() perso.Config { return perso.Config{BAC: true, DGs: []int{2, 7, 11, 12}} }},
 			chipCfg{"BAC+CA-3DES-noinfo", func() perso.Config {
 				return perso.Config{BAC: true, DGs: []int{2}, CA: []perso.CASpec{{Curve: "P-256", Cipher: 1, NoInfo: true}}}
 			}},
